@@ -478,8 +478,12 @@ class Ctx:
             m.ctx = self
 
     # -- truth
-    def truth(self, genome) -> float:
-        return self.sign * self.g(canon(genome))
+    def truth(self, genome, level=None) -> float:
+        v = self.g(canon(genome))
+        sh = self.desc.get("level_shift")
+        if sh and level is not None:
+            v = v + float(sh[level])  # one objective per level (see build_stack)
+        return self.sign * v
 
     def in_box(self, x) -> bool:
         x = np.asarray(x, dtype=np.float64).reshape(-1)
@@ -596,7 +600,12 @@ EA_CLASSES = {
 
 
 def build_stack(ctx: Ctx, tag: int, stack: list):
-    rec = make_recorder(ctx.log, tag, ctx.g, ctx.sign)
+    g_ = ctx.g
+    sh = ctx.desc.get("level_shift")
+    if sh and tag >= 0 and float(sh[tag]) != 0.0:
+        # one objective per level (a coarser / shifted model on the upper levels, as the documentation suggests): g + a constant
+        g_ = (lambda x, _g=ctx.g, _s=float(sh[tag]): _g(x) + _s)
+    rec = make_recorder(ctx.log, tag, g_, ctx.sign)
     form = ctx.desc.get("objective_form", "closure")
     if form == "lambda":
         fun = lambda x, *a, **k: rec(x, *a, **k)  # noqa: E731
